@@ -48,15 +48,14 @@ Reset == /\ R.e = "reset" /\ status = "end"
 Feed == /\ R.e = "feed" /\ status = "ok" /\ R.n >= 1 /\ fed + R.n <= C.total
         /\ fed' = fed + R.n /\ quiet' = FALSE /\ UNCHANGED <<idx, status, C>>
 DecNone == /\ R.e = "dec" /\ R.r = "none" /\ status = "ok"
-           /\ \/ InJunk
-              \/ /\ ~InJunk
-                 /\ ~AllFed                                               \* a completely fed frame is delivered or rejected, never withheld
-                 /\ ~(C.early /\ MustReject(Cur) /\ PrefixFed)             \* C57: reject before buffering the payload
-                 /\ fed - Cur.s <= C.limit + C.slack                       \* never waits with more than a maximal frame buffered
+           /\ (\/ InJunk
+               \/ /\ ~InJunk
+                  /\ ~AllFed                                              \* a completely fed frame is delivered or rejected, never withheld
+                  /\ ~(C.early /\ MustReject(Cur) /\ PrefixFed)            \* C57: reject before buffering the payload
+                  /\ fed - Cur.s <= C.limit + C.slack) = TRUE              \* never waits with more than a maximal frame buffered
            /\ quiet' = TRUE /\ UNCHANGED <<fed, idx, status, C>>
 DecErr == /\ R.e = "dec" /\ R.r = "err" /\ status = "ok"
-          /\ \/ InJunk
-             \/ ~InJunk /\ ~MustAccept(Cur) /\ PrefixFed                              \* only a frame outside the limits, and only once its length is known
+          /\ (InJunk \/ (~InJunk /\ ~MustAccept(Cur) /\ PrefixFed)) = TRUE           \* only a frame outside the limits, and only once its length is known
           /\ status' = "err" /\ quiet' = TRUE /\ UNCHANGED <<fed, idx, C>>
 Same(f) == /\ R.id = f.id /\ R.used = f.h + f.n /\ R.npub = f.npub /\ R.nsub = f.nsub /\ R.nctl = f.nctl /\ R.dsum = f.dsum
 DecItem == /\ R.e = "dec" /\ R.r = "item" /\ status = "ok"
